@@ -9,6 +9,9 @@ type c14Graph struct {
 }
 
 // c14Build forks over EVERY subset of directed links from any node to any non-sensor node (self-loops included).
+// c14InputOnlyToFirstHidden: (thorough) the input feeds the first hidden node only, all other links are forked
+var c14InputOnlyToFirstHidden bool
+
 func c14Build(nIn, nOut, nHid int) *c14Graph {
 	g := &c14Graph{}
 	var ins, outs []*NNode
@@ -37,7 +40,13 @@ func c14Build(nIn, nOut, nHid int) *c14Graph {
 	}
 	for from := 0; from < total; from++ {
 		for to := nIn; to < total; to++ {
-			if vChoice("edge", 2) == 1 {
+			present := false
+			if c14InputOnlyToFirstHidden && from < nIn {
+				present = to == nIn+nOut
+			} else {
+				present = vChoice("edge", 2) == 1
+			}
+			if present {
 				g.adj[from][to] = true
 				g.nodes[to].ConnectFrom(g.nodes[from], 1.0)
 			}
@@ -132,6 +141,9 @@ func vc14(nIn, nOut, nHid int) {
 	vReach("end")
 }
 
-func VC14_Depth_Quick()    { vc14(1, 1, 2) }
-func VC14_Depth_TwoOut()   { vc14(1, 2, 1) }
-func VC14_Depth_Thorough() { vc14(1, 1, 3) }
+func VC14_Depth_Quick()  { vc14(1, 1, 2) }
+func VC14_Depth_TwoOut() { vc14(1, 2, 1) }
+func VC14_Depth_Thorough() {
+	c14InputOnlyToFirstHidden = true
+	vc14(1, 1, 3)
+}
